@@ -52,6 +52,14 @@
 (*           keeps the index (1 = identity = "still the input")            *)
 (*   res     results of the finished calls: res[s] = index of the winning  *)
 (*           group element for start s, the returned object is Result(s)   *)
+(*   two-thread model (SpecC; constant in Spec):                           *)
+(*   th      frames of the two threads inside generate_group: pc, name,    *)
+(*           obj (local g, an object id), gi, a, b, new, hit, held         *)
+(*   heap    object id -> the list group.group of that object              *)
+(*   ccache  symcache as shared state: insertion ordered <<key, object id>>*)
+(*   ev      history of the dictionary accesses that hand out / store an   *)
+(*           object: <<thread, "get" | "pub", length of its list then>>    *)
+(*   last    thread inside a section the configuration does not preempt    *)
 (*                                                                         *)
 (* Actions                                                                 *)
 (*   CallMiss / CallHit      a named group function is called              *)
@@ -61,6 +69,11 @@
 (*   ChooseUbi / ChooseHkl   choose the object whose orbit is reduced      *)
 (*   ScanKeep / ScanSkip     loop body of find_uniq_*: t > tmax or not     *)
 (*   Return                  back to idle (cache configuration only)       *)
+(*   SpecC, per thread t: Contains (args in symcache), Get (symcache[args]),*)
+(*   New (g = group()), AddItemC, MultC (the additem / makegroup steps on   *)
+(*   the thread's own object), Publish (symcache[args] = g), Ret; Finished  *)
+(*   (both returned).  TLC explores every interleaving of these steps for   *)
+(*   the pairs of first calls in ConcPairs.                                 *)
 (*                                                                         *)
 (* Invariants (all stated independently of the generation procedure)       *)
 (*   TypeOK, GenOK (no duplicates, det 1, entries in -1..1 while growing), *)
@@ -78,7 +91,17 @@
 (*     HklNormKept.   CanonicalAlways is FALSE on trace ties: it is the    *)
 (*     invariant of configuration SymGroup_ties.cfg, whose counterexample  *)
 (*     is finding C16-find-uniq-u-trace-tie.                               *)
+(*     HklLexMax: where the whole orbit stays within 499 the result is the *)
+(*     lexicographic maximum (independent of the packing base 1000);       *)
+(*     beyond 499 the key is not injective: SymGroup_hkl500.cfg.           *)
 (*   temporal (cache configuration): Terminates (every makegroup returns)  *)
+(*   two threads (SymGroup_conc / _conct): HeldFull + Frozen + HeldClosed  *)
+(*     (= HeldClosedAlways: no caller ever holds, from its return on, a    *)
+(*     group that is not closed / not of the full order), PublishedComplete,*)
+(*     PublishedClosed, PrivateWhileBuilt, NoAliasC, HitIsCached, AllCached,*)
+(*     no deadlock before both threads returned.  SymGroup_early.cfg: the  *)
+(*     variant that stores the empty group first violates HeldClosedAlways *)
+(*     (and HeldFull, Frozen, PublishedComplete, PrivateWhileBuilt).       *)
 (*                                                                         *)
 (* Known departures of the pinned tree from these laws (both are found by  *)
 (* TLC as invariant violations and then confirmed on the real code by the  *)
@@ -90,11 +113,18 @@
 (*     MetricKept, HklNormKept fail for trigonal with TrigonalFixed=FALSE; *)
 (*     all hold with the repaired generator, TrigonalFixed = TRUE).        *)
 (*                                                                         *)
+(* Harness-side families that are covariant in the model (bound in          *)
+(* harness/props/c16.py, not enumerated by TLC): cell scale 1 A .. 1e3 A,   *)
+(* the kind of the argument (list, Fortran / strided array, func=, debug=), *)
+(* hkl arrays of many columns and their dtype (each column is one ChooseHkl *)
+(* behaviour), which real thread plays which model thread.                  *)
+(*                                                                         *)
 (* Bounds: Names (ten groups), quaternion components -QMax..QMax (all      *)
 (* rational rotations |q|^2 R(q); contains the signed permutations and the *)
-(* Pythagorean angles 3-4-5, 5-12-13, 7-24-25), hkl box -HMax..HMax,       *)
-(* MaxCalls named-group calls per behaviour.  Largest intermediate         *)
-(* (SameLattice) < 2^28 for QMax = 3.                                      *)
+(* Pythagorean angles 3-4-5, 5-12-13, 7-24-25), hkl box -HMax..HMax plus   *)
+(* the explicit triples BigHkls (entries up to 499: key < 2^29, HklNormKept *)
+(* < 2^31), MaxCalls named-group calls per behaviour, two threads with one  *)
+(* call each.  Largest intermediate (SameLattice) < 2^28 for QMax = 3.      *)
 (***************************************************************************)
 EXTENDS ExactLA, Json
 
@@ -103,21 +133,42 @@ CONSTANTS Names,      \* subset of the ten group names
           HMax,       \* hkl box
           MaxCalls,   \* number of named-group calls in one behaviour
           DoScan,     \* BOOLEAN: explore orbits (only after the first call)
-          TrigonalFixed  \* TRUE: trigonal() = generate_group("-y,x-y,z", "y,x,-z") (repaired, /repo fix: commit
+          TrigonalFixed, \* TRUE: trigonal() = generate_group("-y,x-y,z", "y,x,-z") (repaired, /repo fix: commit
                          \*       "trigonal() uses the three-fold of the hexagonal (gamma = 120) setting");
                          \* FALSE: the originally pinned tree, "y,-x-y,z" (defect C16-trigonal-setting).
                          \* The harness picks the value from the strings the real trigonal() passes on.
+          BigHkls,    \* extra hkl reduced besides the box.  A configuration file has sets but no tuples:
+                      \* (nor negative numbers): the triple (h, k, l), entries in -999..999, is written
+                      \* {1000 + h, 11000 + k, 21000 + l}
+          ConcPairs,  \* two-thread model: set of sets {n1, n2} ({n}: both threads ask for n); the two
+                      \* threads make the first calls of the two names concurrently
+          CoarseNames, Stride,  \* two-thread model: a thread closing a group of CoarseNames can be preempted
+                         \* inside makegroup only at the start of row a with (a-1) % Stride = 0 (subset of
+                         \* the interleavings, quick tier); CoarseNames = {} : every step is a preemption point
+          PublishEarly   \* FALSE: generate_group as written (symcache[args] = g after the last additem);
+                         \* TRUE: the variant that stores the empty group first and fills it afterwards
+                         \* (SymGroup_early.cfg: HeldClosedAlways is expected to be VIOLATED)
 
 VARIABLES calls, cache, name, pc, hit, gi, grp, a, b, new,
-          mode, x0, tag, s, i, cur, uniq, tmax, res
+          mode, x0, tag, s, i, cur, uniq, tmax, res,
+          th, heap, ccache, ev, last
 
-vars == << calls, cache, name, pc, hit, gi, grp, a, b, new,
-           mode, x0, tag, s, i, cur, uniq, tmax, res >>
+seqvars == << calls, cache, name, pc, hit, gi, grp, a, b, new,
+              mode, x0, tag, s, i, cur, uniq, tmax, res >>
+cvars == << th, heap, ccache, ev, last >>
+vars == << seqvars, cvars >>
 
 AllNames == { "cubic", "hexagonal", "trigonal", "rhombohedralP", "tetragonal",
               "orthorhombic", "monoclinic_c", "monoclinic_a", "monoclinic_b", "triclinic" }
 ASSUME Names \subseteq AllNames /\ QMax \in 1..3 /\ HMax \in 1..4 /\ MaxCalls \in 1..3
        /\ DoScan \in BOOLEAN /\ TrigonalFixed \in BOOLEAN
+       /\ \A c \in BigHkls : /\ Cardinality(c) = 3
+                              /\ \E h \in c : h \in 1..1999
+                              /\ \E k \in c : k \in 10001..11999
+                              /\ \E l \in c : l \in 20001..21999
+       /\ \A p \in ConcPairs : p \subseteq AllNames /\ Cardinality(p) \in {1, 2}
+       /\ CoarseNames \subseteq AllNames
+       /\ Stride \in 1..24 /\ PublishEarly \in BOOLEAN
 
 Mul(A, B) == M2T(MM(A, B))
 T3(v) == << v[1], v[2], v[3] >>
@@ -213,6 +264,10 @@ ASSUME \A q \in Quats : IsOrthoScaled(QRot(q), QN(q)) /\ Det(QRot(q)) = QN(q)*QN
 ASSUME QRot(<<1,1,0,0>>) = MScale(2, Rx(<<0,1,1>>)) /\ QRot(<<2,0,0,1>>) = Rz(<<3,4,5>>)
 
 Box == { << h, k, l >> : h \in -HMax..HMax, k \in -HMax..HMax, l \in -HMax..HMax }
+Decode(c) == << (CHOOSE v \in c : v \in 1..1999) - 1000,
+                (CHOOSE v \in c : v \in 10001..11999) - 11000,
+                (CHOOSE v \in c : v \in 20001..21999) - 21000 >>
+BigBox == { Decode(c) : c \in BigHkls }
 
 \* ---- the two reductions share one scan ----------------------------------------------
 HklKey(h) == (h[1]*1000 + h[2])*1000 + h[3]                      \* hklmax(h, 1000)
@@ -224,14 +279,18 @@ ScoreOp(o, x) == IF mode = "u" THEN Dot(o[1], Col(x, 1)) + Dot(o[2], Col(x, 2)) 
                  ELSE HklKey(MV(o, x))
 
 \* ---- initial state --------------------------------------------------------------------
-Init ==
+SeqInit ==
   /\ calls = << >> /\ cache = << >> /\ name = "" /\ pc = "idle" /\ hit = FALSE
   /\ gi = 0 /\ grp = << >> /\ a = 0 /\ b = 0 /\ new = FALSE
   /\ mode = "-" /\ x0 = << >> /\ tag = << >> /\ s = 0 /\ i = 0 /\ cur = << >> /\ uniq = 0 /\ tmax = 0
   /\ res = << >>
 
-NoScan == UNCHANGED << mode, x0, tag, s, i, cur, uniq, tmax, res >>
-NoGen == UNCHANGED << calls, cache, name, hit, gi, grp, a, b, new >>
+\* the sequential specification does not use the two-thread variables
+Init == SeqInit /\ th = << >> /\ heap = << >> /\ ccache = << >> /\ ev = << >> /\ last = 0
+
+\* (every sequential action contains exactly one of NoScan / NoGen: the two-thread variables ride along)
+NoScan == UNCHANGED << mode, x0, tag, s, i, cur, uniq, tmax, res >> /\ UNCHANGED cvars
+NoGen == UNCHANGED << calls, cache, name, hit, gi, grp, a, b, new >> /\ UNCHANGED cvars
 
 CacheKeys == { cache[k][1] : k \in 1..Len(cache) }
 CacheGet(key) == (CHOOSE k \in 1..Len(cache) : cache[k][1] = key)
@@ -334,7 +393,7 @@ Return ==
   /\ UNCHANGED << calls, cache >> /\ NoScan
 
 ChooseUbi == pc = "closed" /\ DoScan /\ \E c \in 1..Len(Cells(name)), q \in Quats : PickUbi(c, q)
-ChooseHkl == pc = "closed" /\ DoScan /\ \E h \in Box : PickHkl(h)
+ChooseHkl == pc = "closed" /\ DoScan /\ \E h \in Box \cup BigBox : PickHkl(h)
 
 Next ==
   \/ \E n \in Names : CallHit(n) \/ CallMiss(n)
@@ -344,6 +403,121 @@ Next ==
   \/ Return
 
 Spec == Init /\ [][Next]_vars /\ WF_vars(Next)
+
+\* ======================================================================================
+\* the symcache protocol under concurrency: two threads make the FIRST calls of named groups
+\* ======================================================================================
+\* generate_group(*args) (sym_u.py:118-126) cut into the steps between which another thread can run:
+\*   "call"    if args in symcache           (Contains: hit -> "get", miss -> "new")
+\*   "get"     return symcache[args]         (Get; a second dictionary access)
+\*   "new"     g = group()                   (New: a fresh object [identity] on the heap, private to the thread)
+\*   "additem" g.additem(m_from_string(a))   (AddItemC: append unless member, makegroup starts)
+\*   "mult"    one iteration of makegroup's double loop over the growing list   (MultC)
+\*   "publish" symcache[args] = g            (Publish)
+\*   "ret"     return g                      (Ret: from here on the caller HOLDS the object)
+\* Shared state: ccache (the dictionary: insertion ordered <<key, object id>>) and heap (object id -> list
+\* group.group; an object is mutated in place by additem / makegroup).  th[t] is the frame of thread t,
+\* ev the history of the dictionary accesses that return / store an object (<<thread, "get" | "pub",
+\* length of the object's list at that moment>>), last # 0 while thread `last` is inside a section that
+\* the configuration does not preempt (CoarseNames / Stride).
+T == {1, 2}
+Frame(n) == [ pc |-> "call", name |-> n, obj |-> 0, gi |-> 0, a |-> 0, b |-> 0, new |-> FALSE,
+              hit |-> FALSE, held |-> 0 ]
+InitC ==
+  /\ SeqInit /\ heap = << >> /\ ccache = << >> /\ ev = << >> /\ last = 0
+  /\ \E p \in ConcPairs :
+        LET n1 == CHOOSE n \in p : TRUE
+            n2 == IF Cardinality(p) = 1 THEN n1 ELSE CHOOSE n \in p : n # n1
+        IN th = [t \in T |-> Frame(IF t = 1 THEN n1 ELSE n2)]
+
+CKeys == { ccache[k][1] : k \in 1..Len(ccache) }
+CIdx(key) == CHOOSE k \in 1..Len(ccache) : ccache[k][1] = key
+CSet(key, o) == IF key \in CKeys THEN [ccache EXCEPT ![CIdx(key)] = << key, o >>]
+                ELSE Append(ccache, << key, o >>)
+Key(t) == GenStrings(th[t].name)
+
+\* inside makegroup of a coarse name only some row starts are preemption points
+NoPreempt(f) == /\ f.pc = "mult" /\ f.name \in CoarseNames
+                /\ ~(f.b = 1 /\ (f.a - 1) % Stride = 0)
+CanRun(t) == last \in {0, t}
+SetLast(t) == last' = IF NoPreempt(th'[t]) THEN t ELSE 0
+
+Contains(t) ==
+  /\ CanRun(t) /\ UNCHANGED seqvars
+  /\ th[t].pc = "call"
+  /\ th' = IF Key(t) \in CKeys THEN [th EXCEPT ![t].pc = "get", ![t].hit = TRUE]
+                                ELSE [th EXCEPT ![t].pc = "new"]
+  /\ UNCHANGED << heap, ccache, ev >>
+  /\ SetLast(t)
+
+Get(t) ==
+  /\ CanRun(t) /\ UNCHANGED seqvars
+  /\ th[t].pc = "get"
+  /\ LET o == ccache[CIdx(Key(t))][2] IN
+       /\ th' = [th EXCEPT ![t].obj = o, ![t].pc = "ret"]
+       /\ ev' = Append(ev, << t, "get", Len(heap[o]) >>)
+  /\ UNCHANGED << heap, ccache >>
+  /\ SetLast(t)
+
+New(t) ==
+  /\ CanRun(t) /\ UNCHANGED seqvars
+  /\ th[t].pc = "new"
+  /\ heap' = Append(heap, << I3 >>)
+  /\ th' = [th EXCEPT ![t].obj = Len(heap) + 1, ![t].gi = 1,
+                       ![t].pc = IF PublishEarly THEN "publish" ELSE "additem"]
+  /\ UNCHANGED << ccache, ev >>
+  /\ SetLast(t)
+
+AddItemC(t) ==
+  /\ CanRun(t) /\ UNCHANGED seqvars
+  /\ th[t].pc = "additem"
+  /\ LET o == th[t].obj  item == GenMat(th[t].name, th[t].gi) IN
+       heap' = [heap EXCEPT ![o] = IF item \in SeqToSet(@) THEN @ ELSE Append(@, item)]
+  /\ th' = [th EXCEPT ![t].a = 1, ![t].b = 1, ![t].new = TRUE, ![t].pc = "mult"]
+  /\ UNCHANGED << ccache, ev >>
+  /\ SetLast(t)
+
+\* the loop body and the cursor movement are those of MultiplyNew / MultiplyOld / Advance above
+MultC(t) ==
+  /\ CanRun(t) /\ UNCHANGED seqvars
+  /\ th[t].pc = "mult"
+  /\ LET f == th[t]  o == f.obj  g == heap[o]
+         c == Mul(g[f.a], g[f.b])
+         isnew == c \notin SeqToSet(g)
+         g2 == IF isnew THEN Append(g, c) ELSE g
+     IN /\ heap' = [heap EXCEPT ![o] = g2]
+        /\ th' = IF f.b + 1 <= Len(g2) THEN [th EXCEPT ![t].b = f.b + 1, ![t].new = isnew]
+                 ELSE IF f.a + 1 <= Len(g2) THEN [th EXCEPT ![t].a = f.a + 1, ![t].b = 1, ![t].new = isnew]
+                 ELSE IF isnew THEN [th EXCEPT ![t].a = 1, ![t].b = 1, ![t].new = isnew]
+                 ELSE IF f.gi < Len(Gens(f.name))
+                      THEN [th EXCEPT ![t].gi = f.gi + 1, ![t].new = isnew, ![t].pc = "additem"]
+                      ELSE [th EXCEPT ![t].new = isnew, ![t].pc = IF PublishEarly THEN "get" ELSE "publish"]
+  /\ UNCHANGED << ccache, ev >>
+  /\ SetLast(t)
+
+Publish(t) ==
+  /\ CanRun(t) /\ UNCHANGED seqvars
+  /\ th[t].pc = "publish"
+  /\ ccache' = CSet(Key(t), th[t].obj)
+  /\ ev' = Append(ev, << t, "pub", Len(heap[th[t].obj]) >>)
+  /\ th' = [th EXCEPT ![t].pc = IF PublishEarly THEN "additem" ELSE "ret"]
+  /\ UNCHANGED heap
+  /\ SetLast(t)
+
+Ret(t) ==
+  /\ CanRun(t) /\ UNCHANGED seqvars
+  /\ th[t].pc = "ret"
+  /\ th' = [th EXCEPT ![t].held = th[t].obj, ![t].pc = "done"]
+  /\ UNCHANGED << heap, ccache, ev >>
+  /\ SetLast(t)
+
+AllConcPairs == { {n1, n2} : n1, n2 \in AllNames }          \* the 55 unordered pairs
+AllDone == \A t \in T : th[t].pc = "done"
+Finished == AllDone /\ UNCHANGED vars          \* the only state without another successor (CHECK_DEADLOCK TRUE)
+NextC ==
+  \/ \E t \in T : Contains(t) \/ Get(t) \/ New(t) \/ AddItemC(t) \/ MultC(t) \/ Publish(t) \/ Ret(t)
+  \/ Finished
+SpecC == InitC /\ [][NextC]_vars
 
 \* ======================================================================================
 \* invariants
@@ -447,11 +621,83 @@ HklNormKept == (AtDone /\ mode = "h") =>
    \A c \in CellSet(name) : LET A == M2T(Adj(Metric(c))) IN
       \A x \in ResultSet : Dot(x, MV(A, x)) = Dot(x0, MV(A, x0))
 
+\* Where the packed key is an order isomorphism: for |h|, |k|, |l| <= 499 two different triples differ in
+\* the key by at least 1000000 - 998*1000 - 998 > 0 in the direction of their first different entry, so the
+\* largest key is the LEXICOGRAPHIC maximum of the orbit (an expectation that does not mention the base
+\* 1000).  From 500 on two orbit members can share the LARGEST key (hexagonal: (3,-2,500), (3,-1,-500)):
+\* SymGroup_hkl500.cfg, HklCanonical is expected to be VIOLATED there - the domain of the hkl clauses of
+\* the property is |h| <= 499 (the code's comment "Assumes |h| < hmax" is too generous by a factor 2).
+LexDomain(h) == \A k \in 1..3 : h[k] \in -499..499
+LexLeq(x, y) == \/ x[1] < y[1]
+                \/ x[1] = y[1] /\ x[2] < y[2]
+                \/ x[1] = y[1] /\ x[2] = y[2] /\ x[3] <= y[3]
+\* (hexagonal operators form h - k: the whole orbit has to stay within 499, not only the hkl one starts from)
+HklLexMax == (AtDone /\ mode = "h") =>
+                LET O == OrbitOf IN
+                  (\A y \in O : LexDomain(y)) => \A x \in ResultSet : \A y \in O : LexLeq(y, x)
+
 \* FALSE on trace ties (finding F12): invariant of SymGroup_ties.cfg only
 CanonicalAlways == AtDone => Cardinality({ Result(k) : k \in 1..Len(res) }) = 1
 
 \* every makegroup() returns (under weak fairness of Next)
 Terminates == (pc \in {"additem", "mult"}) ~> (pc = "closed")
+
+\* ---- the two-thread model -----------------------------------------------------------------------
+\* the group clauses of the property on one list, for the name it was asked for
+GroupOK(g, n) ==
+  LET S == SeqToSet(g) IN
+    /\ Len(g) = Order(n) /\ Cardinality(S) = Order(n) /\ I3 \in S
+    /\ \A X, Y \in S : Mul(X, Y) \in S
+    /\ \A X \in S : Det(X) = 1 /\ \E Y \in S : Mul(X, Y) = I3 /\ Mul(Y, X) = I3
+NameOfKey(key) == CHOOSE n \in AllNames : GenStrings(n) = key
+TS == DOMAIN th                                   \* {} in the sequential specification
+ConcTypeOK ==
+  /\ last \in {0, 1, 2}
+  /\ \A t \in TS : /\ th[t].pc \in {"call", "get", "new", "additem", "mult", "publish", "ret", "done"}
+                    /\ th[t].obj \in 0..Len(heap) /\ th[t].held \in 0..Len(heap)
+                    /\ (th[t].pc = "mult" => th[t].a \in 1..Len(heap[th[t].obj]) /\ th[t].b \in 1..Len(heap[th[t].obj]))
+  /\ \A k \in 1..Len(ccache) : ccache[k][2] \in 1..Len(heap)
+\* THE property: whatever a caller holds after generate_group returned is, from then on and in every
+\* interleaving, the closed group of the full order.  It is checked in three pieces (the 1700 matrix
+\* products of GroupOK for cubic are too many to repeat in every state):
+\*   HeldFull    in EVERY state a held list has the full order, no duplicates, the identity first;
+\*   Frozen      no step changes a list that somebody holds or that the dictionary refers to;
+\*   HeldClosed  when both threads have returned every held list satisfies all the group clauses
+\* (a held list has the full order from the return on, never changes, and is closed at the end).
+\* HeldClosedAlways is the one-piece statement (thorough configuration, and SymGroup_early.cfg).
+FullOrder(g, n) == Len(g) = Order(n) /\ Cardinality(SeqToSet(g)) = Order(n) /\ g[1] = I3
+HeldFull == \A t \in TS : th[t].pc = "done" => FullOrder(heap[th[t].held], th[t].name)
+HeldClosed == (TS # {} /\ AllDone) => \A t \in TS : GroupOK(heap[th[t].held], th[t].name)
+HeldClosedAlways == \A t \in TS : th[t].pc = "done" => GroupOK(heap[th[t].held], th[t].name)
+Reachable(o) == \/ \E t \in TS : th[t].held = o
+                \/ \E k \in 1..Len(ccache) : ccache[k][2] = o
+Frozen == [][\A o \in 1..Len(heap) : Reachable(o) => heap'[o] = heap[o]]_vars
+\* ... because only complete objects are ever reachable from the dictionary (a list only grows and never
+\* beyond Order(n) - GenOK of the sequential specification -, so "complete" is "has reached the full order";
+\* the full clauses are evaluated by HeldClosed on everything a caller gets, and by PublishedClosed when
+\* both threads have returned)
+PublishedComplete ==
+  \A k \in 1..Len(ccache) : Len(heap[ccache[k][2]]) = Order(NameOfKey(ccache[k][1]))
+PublishedClosed ==
+  (TS # {} /\ AllDone) => \A k \in 1..Len(ccache) : GroupOK(heap[ccache[k][2]], NameOfKey(ccache[k][1]))
+\* ... and an object is private to its builder while it grows
+PrivateWhileBuilt ==
+  \A t \in TS : th[t].pc \in {"additem", "mult"} =>
+     /\ \A k \in 1..Len(ccache) : ccache[k][2] # th[t].obj
+     /\ \A u \in TS \ {t} : th[u].obj # th[t].obj
+\* different keys never share an object, a key occurs once
+NoAliasC == \A k, l \in 1..Len(ccache) :
+               (ccache[k][1] = ccache[l][1] \/ ccache[k][2] = ccache[l][2]) => k = l
+\* a hit returns what the dictionary holds; the dictionary ends with an entry for every key asked for
+HitIsCached == \A t \in TS : (th[t].pc = "done" /\ th[t].hit) => \E k \in 1..Len(ccache) : ccache[k] = << Key(t), th[t].held >>
+AllCached == (TS # {} /\ AllDone) => \A t \in TS : Key(t) \in CKeys
+
+EmitConc ==
+  (TS # {} /\ AllDone) => PrintT("@@" \o ToJson(
+      [ kind |-> "conc", names |-> [t \in T |-> th[t].name], hit |-> [t \in T |-> th[t].hit],
+        held |-> [t \in T |-> th[t].held], ev |-> ev,
+        cache |-> [k \in 1..Len(ccache) |-> ccache[k]],
+        lens |-> [o \in 1..Len(heap) |-> Len(heap[o])] ]))
 
 \* ---- emission for the harness ---------------------------------------------------------------
 EmitGroup ==
